@@ -17,6 +17,8 @@ OPS1 = {">": "KW_GT", "<": "KW_LT"}
 _ws = re.compile(r"\s+")
 _ident = re.compile(r"[A-Za-z_][A-Za-z0-9_]*")
 _num = re.compile(r"\d+(\.\d+)?")
+_elif = re.compile(r"else\s*if(?![A-Za-z0-9_])")
+_notin = re.compile(r"not\s+in(?![A-Za-z0-9_])")
 
 
 class Reject(Exception):
@@ -76,6 +78,12 @@ def tokenize(text):
             else:
                 toks.append(("NON_NEG_INTEGER", s))
             i = m.end()
+            continue
+        m2 = _elif.match(text, i) or _notin.match(text, i)
+        if m2:
+            # the documented two-word tokens: `else\s*if` (also written `elseif`) and `not\s+in`
+            toks.append(("KW_ELIF", "else if") if text[i] == "e" else ("KW_NOT_IN", "not in"))
+            i = m2.end()
             continue
         m = _ident.match(text, i)
         if m:
